@@ -45,9 +45,9 @@ class Site:
     def __init__(self):
         self.pages = {}
 
-    def add(self, url, status=200, ctype="text/html", assets=(), outlinks=(), location="", fail=False, body=None, kind="html"):
+    def add(self, url, status=200, ctype="text/html", assets=(), outlinks=(), location="", fail=False, body=None, kind="html", link=""):
         self.pages[url] = {"status": status, "ctype": ctype, "assets": list(assets), "outlinks": list(outlinks), "location": location,
-                           "fail": fail, "body": body, "kind": kind}
+                           "fail": fail, "body": body, "kind": kind, "link": link}
 
     def answer(self, url):
         p = self.pages.get(url)
@@ -159,7 +159,8 @@ def run_seed(run, cfg, site, seed_url, seed_id="seed", hops=0, max_passes=12, dc
             if a.get("fail"):
                 outcomes_impl[n["id"]] = {"fail": True}
             else:
-                outcomes_impl[n["id"]] = {"status": a["status"], "ctype": a["ctype"], "location": a.get("location", ""), "body": a["body"]}
+                outcomes_impl[n["id"]] = {"status": a["status"], "ctype": a["ctype"], "location": a.get("location", ""), "body": a["body"],
+                                          "link": a.get("link", "")}
         out = run.impl_only({"op": "arch", "outcomes": outcomes_impl})
         dump, _, info = out.partition(" ")
         tree = parse_dump(dump)
